@@ -11,5 +11,7 @@ pub mod common;
 pub mod c10_vclock;
 pub mod t_orswot;
 pub mod c11_aggregates;
+pub mod t_mvreg;
+pub mod t_map_orswot;
 
 include!(concat!(env!("VH_GEN_DIR"), "/dispatch.rs"));
